@@ -53,10 +53,12 @@ Inductive op :=
 | OSteal (w : positive) (b : bool)
 | OExpose (w : positive) | OGetRoot (w : positive) | OFlush (w : positive)
 | OKey | OMouse (t : mtype)
-| OBind (w : positive) (key : bool) (mask : Z) (ret : bool) (actions : list op)
+| OBind (w : positive) (id : Z) (key : bool) (mask : Z) (ret : bool) (actions : list op)
+| OUnbind (w : positive) (id : Z)          (* tickit_window_unbind_event_id of the handler bound as number [id] *)
+| OGeom (w : positive)                     (* tickit_window_set_geometry to a different size: GEOMCHANGE runs on w *)
 | ONop.
 
-Record handler := mkH { h_key : bool; h_mask : Z; h_ret : bool; h_actions : list op }.
+Record handler := mkH { h_id : Z; h_key : bool; h_mask : Z; h_ret : bool; h_actions : list op }.
 
 Record wcell := mkW {
   w_parent : ptr; w_first : ptr; w_next : ptr; w_focus : ptr;
@@ -805,7 +807,9 @@ Fixpoint run_op (fuel : nat) (o : op) {struct fuel} : M unit :=
     (* the terminal's KEY / MOUSE bindings of the root window exist exactly while it lives *)
     | OKey => b <- root_bound ;; if b then handle_key f 1%positive ;;; ret tt else ret tt     (* on_term_key *)
     | OMouse t => b <- root_bound ;; if b then on_term_mouse f t else ret tt
-    | OBind w k m r acts => upd w (fun c => set_hs c (w_hs c ++ [mkH k m r acts]))
+    | OBind w id k m r acts => upd w (fun c => set_hs c (w_hs c ++ [mkH id k m r acts]))
+    | OUnbind w id => upd w (fun c => set_hs c (filter (fun hd => negb (h_id hd =? id)) (w_hs c)))
+    | OGeom w => getw w ;;; ret tt
     | ONop => ret tt
     end
   end
@@ -819,30 +823,35 @@ with run_ops (fuel : nat) (l : list op) {struct fuel} : M unit :=
     end
   end
 (* run_events_whilefalse over the bindings of one window (snapshot of the list at entry) *)
-with run_key_handlers (fuel : nat) (hs : list handler) {struct fuel} : M bool :=
+(* the walk over the bindings of window [w]: [hs] is the list as it was at entry; a binding that has
+   been unbound meanwhile is a tombstone and is skipped *)
+with run_key_handlers (fuel : nat) (w : positive) (hs : list handler) {struct fuel} : M bool :=
   match fuel with
   | O => nofuel
   | S f =>
     match hs with
     | [] => ret false
     | h :: hs' =>
-      if h_key h then run_ops f (h_actions h) ;;; (if h_ret h then ret true else run_key_handlers f hs')
-      else run_key_handlers f hs'
+      cw <- getw w ;;
+      if h_key h && existsb (fun hd => h_id hd =? h_id h) (w_hs cw)
+      then run_ops f (h_actions h) ;;; (if h_ret h then ret true else run_key_handlers f w hs')
+      else run_key_handlers f w hs'
     end
   end
-with run_mouse_handlers (fuel : nat) (hs : list handler) (t : mtype) (unset : bool) {struct fuel} : M bool :=
+with run_mouse_handlers (fuel : nat) (w : positive) (hs : list handler) (t : mtype) (unset : bool) {struct fuel} : M bool :=
   match fuel with
   | O => nofuel
   | S f =>
     match hs with
     | [] => ret false
     | h :: hs' =>
-      if h_key h then run_mouse_handlers f hs' t unset
+      cw <- getw w ;;
+      if h_key h || negb (existsb (fun hd => h_id hd =? h_id h) (w_hs cw)) then run_mouse_handlers f w hs' t unset
       else
         (if unset then note_uninit else ret tt) ;;;
         if handler_fires_mouse h t
-        then run_ops f (h_actions h) ;;; (if h_ret h then ret true else run_mouse_handlers f hs' t unset)
-        else run_mouse_handlers f hs' t unset
+        then run_ops f (h_actions h) ;;; (if h_ret h then ret true else run_mouse_handlers f w hs' t unset)
+        else run_mouse_handlers f w hs' t unset
     end
   end
 with handle_key (fuel : nat) (w : positive) {struct fuel} : M bool :=
@@ -868,7 +877,7 @@ with handle_key (fuel : nat) (w : positive) {struct fuel} : M bool :=
          if r2 then (unref f w ;;; ret true)
          else
            c3 <- getw w ;;
-           r3 <- run_key_handlers f (w_hs c3) ;;
+           r3 <- run_key_handlers f w (w_hs c3) ;;
            if r3 then (unref f w ;;; ret true)
            else if v_events_asis V then
              c4 <- getw w ;;
@@ -926,7 +935,7 @@ with handle_mouse (fuel : nat) (w : positive) (t : mtype) (inside unset : bool) 
         | Some _ => unref f w ;;; ret r
         | None =>
           c2 <- getw w ;;
-          hr <- run_mouse_handlers f (w_hs c2) t unset ;;
+          hr <- run_mouse_handlers f w (w_hs c2) t unset ;;
           unref f w ;;; ret (if hr then Some w else None)
         end
       else
@@ -936,7 +945,7 @@ with handle_mouse (fuel : nat) (w : positive) (t : mtype) (inside unset : bool) 
         | Some _ => unref f w ;;; ret r
         | None =>
           c2 <- getw w ;;
-          hr <- run_mouse_handlers f (w_hs c2) t unset ;;
+          hr <- run_mouse_handlers f w (w_hs c2) t unset ;;
           unref f w ;;; ret (if hr then Some w else None)
         end
   end
